@@ -13,6 +13,8 @@ HARNESSES = [
     {"name": "response", "fn": N + "VerifC10Response", "bounds": "response with one 8-byte cookie; layout-preserving adversary, arbitrary key and request id"},
     {"name": "responsetrailing", "fn": N + "VerifC10ResponseTrailing", "bounds": "genuine response followed by 36 arbitrary bytes; arbitrary request id"},
     {"name": "requesttrailing", "fn": N + "VerifC10RequestTrailing", "bounds": "genuine request followed by 36 arbitrary bytes"},
+    {"name": "requesttrailingfield", "fn": N + "VerifC10RequestTrailingField", "bounds": "genuine request followed by one well-formed 36-byte extension field of any non-authenticator type and arbitrary content"},
+    {"name": "responsetrailingfield", "fn": N + "VerifC10ResponseTrailingField", "bounds": "genuine response followed by one such field; arbitrary request id"},
     {"name": "tamperauthhdr", "fn": N + "VerifC10TamperAuthHeader", "bounds": "genuine request (32-byte id, 8-byte cookie); type bytes and low length bytes of the authenticator field header replaced by every other value <= 48"},
     {"name": "tamperresphdr", "fn": N + "VerifC10TamperResponseAuthHeader", "bounds": "genuine response; type bytes and low length bytes of the authenticator field header replaced by every other value <= 48", "cfg": {"copy_bound": 64, "aead_bound": 160}},
     {"name": "otherid32", "fn": N + "VerifC10ResponseOtherID32", "bounds": "authentic response carrying an arbitrary 32-byte identifier vs. an arbitrary outstanding identifier"},
